@@ -176,6 +176,12 @@ def json_short(o):
     return s if len(s) < 900 else s[:900] + "…"
 
 
+def oracle_eq(d, fill):
+    """elementwise d == fill, NaN equal to NaN"""
+    with np.errstate(all="ignore"):
+        return (d == fill) | ((d != d) & (fill != fill))
+
+
 def leg_c(ctx, rng, n):
     import scipy.sparse as sp
     import sparse
@@ -194,9 +200,23 @@ def leg_c(ctx, rng, n):
         if len(shp) and rng.random() < 0.3:
             cands = [t for t in (np.uint8, np.int8, np.int16, np.uint16) if max(shp) <= np.iinfo(t).max]
             idt = cands[int(rng.integers(len(cands)))] if cands else None
-        x = sparse.COO.from_numpy(d, fill_value=fill)
+        # the fill value in every spelling a caller may use: the array's own scalar type, a Python number, a NumPy scalar
+        # or 0-d array of ANOTHER dtype holding the same number — the stored fill value always has the array's dtype
+        spell = int(rng.integers(5))
+        fill_arg = fill
+        if not (np.dtype(dt).kind in "fc" and not np.isfinite(fill)):
+            if spell == 1 and np.dtype(dt).kind in "iuf":
+                fill_arg = fill.item()
+            elif spell == 2:
+                other = np.float64 if np.dtype(dt).kind in "iub" else (np.int8 if np.dtype(dt).kind == "f" else np.float32)
+                fill_arg = other(fill.real if np.dtype(dt).kind == "c" else fill)
+            elif spell == 3:
+                fill_arg = np.asarray(fill, dtype=np.float64 if np.dtype(dt).kind in "iub" else (np.int16 if np.dtype(dt).kind == "f" else np.float64))
+        x = sparse.COO.from_numpy(d, fill_value=fill_arg)
         if idt is not None:  # (from_numpy(idx_dtype=...) goes through a flattened array and rejects sizes the dtype cannot hold)
-            x = sparse.COO(x.coords.astype(idt), x.data, shape=x.shape, fill_value=fill, sorted=True, has_duplicates=False)
+            x = sparse.COO(x.coords.astype(idt), x.data, shape=x.shape, fill_value=fill_arg, sorted=True, has_duplicates=False)
+        if spell == 4 and len(shp):
+            x = sparse.DOK(shp, {tuple(int(v) for v in c): d[tuple(c)] for c in np.argwhere(~oracle_eq(d, fill))}, dtype=d.dtype, fill_value=fill_arg)
         cur = x
         chain = []
         ok = True
@@ -205,10 +225,11 @@ def leg_c(ctx, rng, n):
             if len(shp) == 2 and fill == 0:
                 opts += ["csr", "csc", "scipy"]
             f = str(rng.choice(opts))
-            case = {"shape": list(shp), "dtype": str(np.dtype(dt)), "fill": repr(fill), "dense": d.tolist() if d.size < 60 else "large", "chain": chain + [f]}
+            case = {"shape": list(shp), "dtype": str(np.dtype(dt)), "fill": repr(fill), "fill_given_as": repr(fill_arg) + ":" + type(fill_arg).__name__,
+                    "dense": d.tolist() if d.size < 60 else "large", "chain": chain + [f]}
             try:
                 if isinstance(cur, np.ndarray):
-                    cur = sparse.COO.from_numpy(cur, fill_value=fill)
+                    cur = sparse.COO.from_numpy(cur, fill_value=fill_arg)
                 elif sp.issparse(cur):
                     cur = sparse.COO.from_scipy_sparse(cur)
                 if f == "dense":
@@ -240,6 +261,8 @@ def leg_c(ctx, rng, n):
             elif isinstance(cur, sparse.SparseArray):
                 if not oracle.same_values(np.asarray(cur.fill_value), np.asarray(fill)):
                     msg = f"fill value {cur.fill_value!r} != {fill!r}"
+                elif np.asarray(cur.fill_value).dtype != d.dtype:
+                    msg = f"fill value {cur.fill_value!r} is stored with dtype {np.asarray(cur.fill_value).dtype}, the array has {d.dtype}"
                 else:
                     msg = impl.canonical_problem(cur)
             if msg:
@@ -272,6 +295,78 @@ def leg_c(ctx, rng, n):
                         ctx.fail("C", nm, case, msg, finding=findings.classify(PID, nm, case, msg))
         if k % 100 == 0:
             core.log(f"C05 leg C {k}/{n}")
+
+
+def leg_c_noncanonical(ctx, rng, n):
+    """compressed input that is VALID but not canonical — indices unsorted within a row, an element split into two summands
+    at a repeated index — through the public constructors (GCXS triple, scipy csr/csc/coo with unsorted / duplicate entries):
+    every conversion of it equals the dense array"""
+    import scipy.sparse as sp
+    import sparse
+
+    for k in range(n):
+        shp = gen.shape(rng, 2, 4)
+        fill = int(rng.choice([0, 0, 3]))
+        d = gen.dense(rng, shp, fill, density=float(rng.choice([0.3, 0.6, 1.0])))
+        ca = rand_caxes(rng, len(shp), shuffle=False) or [0]
+        g = sparse.GCXS.from_numpy(d, compressed_axes=tuple(ca), fill_value=fill)
+        data, indices, indptr = g.data.copy(), g.indices.copy(), g.indptr.copy()
+        nd_, ni_, np_ = [], [], [0]
+        for r in range(len(indptr) - 1):
+            seg = list(range(indptr[r], indptr[r + 1]))
+            vals = [(int(indices[j]), int(data[j])) for j in seg]
+            if vals and rng.random() < 0.5:  # split one element into two summands
+                c0, v0 = vals[int(rng.integers(len(vals)))]
+                vals = [(c, v) for c, v in vals if c != c0] + [(c0, v0 - 7), (c0, 7)]
+            order = rng.permutation(len(vals))
+            for j in order:
+                ni_.append(vals[int(j)][0])
+                nd_.append(vals[int(j)][1])
+            np_.append(len(ni_))
+        triple = (np.array(nd_, dtype=d.dtype), np.array(ni_, dtype=indices.dtype), np.array(np_, dtype=indptr.dtype))
+        case = {"shape": list(shp), "fill": fill, "dense": d.tolist(), "compressed_axes": list(ca), "data": nd_, "indices": ni_, "indptr": np_}
+        makers = [("GCXS(triple)", lambda: sparse.GCXS(triple, shape=shp, compressed_axes=tuple(ca), fill_value=fill))]
+        if len(shp) == 2 and fill == 0:
+            if list(ca) == [0]:
+                m = sp.csr_matrix(triple, shape=shp)
+            else:
+                m = sp.csc_matrix(triple, shape=shp)
+            makers += [("GCXS.from_scipy_sparse", lambda m=m: sparse.GCXS.from_scipy_sparse(m.copy())),
+                       ("COO.from_scipy_sparse", lambda m=m: sparse.COO.from_scipy_sparse(m.copy())),
+                       ("asarray(scipy)", lambda m=m: sparse.asarray(m.copy())),
+                       ("GCXS(scipy)", lambda m=m: sparse.GCXS(m.copy()))]
+        for mname, mk in makers:
+            try:
+                x = mk()
+            except Exception as e:  # noqa: BLE001
+                msg = f"{mname} raised {type(e).__name__}: {str(e)[:120]}"
+                ctx.fail("C", "noncanonical", dict(case, maker=mname), msg, finding=findings.classify(PID, "noncanonical", case, msg))
+                continue
+            steps = [("todense", lambda x=x: x.todense()), ("tocoo", lambda x=x: x.asformat("coo")), ("dok", lambda x=x: x.asformat("dok")),
+                     ("coo.T.T", lambda x=x: x.asformat("coo").T.T), ("T", lambda x=x: x.T.T if hasattr(x, "T") else x),
+                     ("gcxs(other axes)", lambda x=x: x.asformat("gcxs", compressed_axes=(len(shp) - 1,) if list(ca) != [len(shp) - 1] else (0,))),
+                     ("coo+coo", lambda x=x: (x.asformat("coo") + sparse.COO.from_numpy(np.zeros(shp, dtype=d.dtype))) if fill == 0 else x.asformat("coo")),
+                     ("coo[::-1]", None), ("coo.sum(0)", None)]
+            for sname, st in steps:
+                c2 = dict(case, maker=mname, step=sname)
+                ctx.case(f"C:noncanonical:{mname}", c2, nontrivial=bool(len(ni_)))
+                if sname == "coo[::-1]":
+                    msg = oracle.compare(lambda x=x: x.asformat("coo")[::-1], lambda: d[::-1], fill=np.asarray(fill, dtype=d.dtype))
+                elif sname == "coo.sum(0)":
+                    msg = oracle.compare(lambda x=x: x.asformat("coo").sum(axis=0), lambda: d.sum(axis=0))
+                elif sname == "todense":
+                    try:
+                        dd = st()
+                        msg = None if (dd.shape == d.shape and dd.dtype == d.dtype and oracle.same_values(dd, d)) else f"todense() differs from the dense array: shape {dd.shape} dtype {dd.dtype}"
+                    except Exception as e:  # noqa: BLE001
+                        msg = f"todense raised {type(e).__name__}: {str(e)[:120]}"
+                else:
+                    # values only for results that stay compressed (a non-canonical operand may stay non-canonical there: C05 is about
+                    # values); a COO made from it must be canonical
+                    msg = oracle.compare(st, lambda: d, fill=np.asarray(fill, dtype=d.dtype), check_canonical=sname in ("tocoo", "coo.T.T", "coo+coo"))
+                if msg:
+                    ctx.fail("C", "noncanonical", c2, msg, finding=findings.classify(PID, "noncanonical", c2, msg))
+                    break
 
 
 def leg_c_narrow(ctx, rng, n):
@@ -317,7 +412,10 @@ def run(ctx):
     leg_a_convert(ctx, rng, 300 if ctx.quick else 3000)
     leg_c(ctx, rng, 200 if ctx.quick else 2500)
     leg_c_narrow(ctx, rng, 40 if ctx.quick else 400)
+    leg_c_noncanonical(ctx, rng, 60 if ctx.quick else 1200)
     ctx.cov["rule"] = ("leg A: constructor flag combinations on unsorted/duplicated coordinates; random conversion chains (length<=6) over "
                        "COO/GCXS(every compressed axes, any order)/DOK/dense compared step by step on representation; leg C: chains incl. "
-                       "CSR/CSC/scipy over 7 dtypes and NaN/inf fills vs the original dense array; constructors from coords/dict/pairs; "
+                       "CSR/CSC/scipy over 7 dtypes and NaN/inf fills vs the original dense array, the fill value given in five spellings "
+                       "(own scalar, Python number, NumPy scalar / 0-d array of another dtype, DOK); constructors from coords/dict/pairs; "
+                       "non-canonical compressed input (rows unsorted, elements split at repeated indices) through GCXS(triple) and scipy; "
                        "non-trivial = non-empty array; distinct by content hash")
